@@ -727,7 +727,12 @@ impl<'a> LiveEvents<'a> {
             }
             let breached = report.breached.clone();
             if let Some(callback) = &self.budget_report_cb {
-                callback.borrow_mut()(report);
+                // The closure is shared by every clone of the options. A parse started from
+                // inside the callback (with those options) ends up here while the closure is
+                // still running: it cannot be called re-entrantly, and must not panic either.
+                if let Ok(mut callback) = callback.try_borrow_mut() {
+                    callback(report);
+                }
             }
             if let Some(breach) = breached {
                 return Err(budget_error(breach).with_location(self.last_location));
